@@ -1,6 +1,8 @@
 (* C02 — assignments are the plurality of bootstrapped nearest-centroid votes. *)
 From Coq Require Import ZArith List Bool.
-From CTM Require Import Base.Sx Model.IntDtype Model.Vote Proofs.CorrP Proofs.ArgmaxP Proofs.VoteP Proofs.VoteMainP.
+From Coq Require Import Permutation Sorted.
+From CTM Require Import Base.Sx Model.IntDtype Model.Vote Proofs.CorrP Proofs.ArgmaxP Proofs.VoteP Proofs.VoteMainP
+     Proofs.SubsetP Proofs.ChooseP.
 Import ListNotations.
 Open Scope Z_scope.
 
@@ -16,14 +18,42 @@ Theorem c02_vote_is_argmax : forall q refs S i,
 Proof. exact nearest_is_argmax. Qed.
 Print Assumptions c02_vote_is_argmax.
 
-(* key_lt really is "smaller correlation": a strict weak order on keys *)
+(* what key_lt decides: with v1, v2 > 0 the variances of two reference rows over the subset
+   and c1, c2 their covariances with the cell, key_lt is c1/sqrt(v1) < c2/sqrt(v2) -- the
+   comparison of the two Pearson correlations (the cell's own norm cancels), exactly *)
+Theorem c02_key_lt_is_correlation_order : forall c1 v1 c2 v2, 0 < v1 -> 0 < v2 ->
+  (key_lt (c1, v1) (c2, v2) = true <-> c1 * Z.abs c1 * v2 < c2 * Z.abs c2 * v1).
+Proof. exact key_lt_meaning. Qed.
+Print Assumptions c02_key_lt_is_correlation_order.
+
+(* ... and a strict weak order, so "a maximal key" is well defined *)
 Theorem c02_key_order : forall k1 k2 k3, kvalid k1 -> kvalid k2 -> kvalid k3 ->
-  (klt k1 k2 -> klt k2 k3 -> klt k1 k3) /\ (~ klt k1 k2 -> klt k1 k3 -> klt k2 k3) /\ ~ klt k1 k1.
+  (klt k1 k2 -> klt k2 k3 -> klt k1 k3) /\ (~ klt k1 k2 -> klt k1 k3 -> klt k2 k3) /\ ~ klt k1 k1 /\
+  (key_lt k1 k2 = true <-> klt k1 k2).
 Proof.
   intros k1 k2 k3 V1 V2 V3. split; [exact (klt_trans k1 k2 k3 V1 V2 V3)|].
-  split; [exact (klt_neg_trans k1 k2 k3 V1 V2 V3) | exact (klt_irrefl k1)].
+  split; [exact (klt_neg_trans k1 k2 k3 V1 V2 V3)|]. split; [exact (klt_irrefl k1) | exact (key_lt_spec k1 k2)].
 Qed.
 Print Assumptions c02_key_order.
+
+(* the subset of an iteration: what the check accepts of a recorded draw is exactly
+   "duplicate-free, within the n usable markers, of size n_bootstrap" ... *)
+Theorem c02_subset_wellformed : forall f (n : nat) (S : list nat),
+  subset_ok f n S = true <->
+  Z.of_nat (length S) = n_bootstrap f n /\ Forall (fun j => (j < n)%nat) S /\ NoDup S.
+Proof. exact subset_ok_spec. Qed.
+Print Assumptions c02_subset_wellformed.
+
+(* ... and that size is max(1, round(f n)), between 1 and n for every factor in (0,1]:
+   a duplicate-free draw of that size always exists *)
+Theorem c02_subset_size : forall f (n : nat), 0 < fst f <= snd f -> (0 < n)%nat ->
+  n_bootstrap f n = Z.max (round_half_even (fst f * Z.of_nat n, snd f)) 1 /\
+  1 <= n_bootstrap f n <= Z.of_nat n.
+Proof.
+  intros f n Hf Hn. split; [|exact (n_bootstrap_range f n Hf Hn)].
+  unfold n_bootstrap. destruct (Nat.eqb_spec n 0) as [E | _]; [subst; inversion Hn | reflexivity].
+Qed.
+Print Assumptions c02_subset_size.
 
 (* every iteration casts exactly one vote, and it goes to a child that owns a leaf below the node *)
 Theorem c02_one_vote_per_iteration : forall owners winners,
@@ -31,6 +61,19 @@ Theorem c02_one_vote_per_iteration : forall owners winners,
   nsum (map (votes_for owners winners) (zdistinct owners)) = length winners.
 Proof. exact votes_total. Qed.
 Print Assumptions c02_one_vote_per_iteration.
+
+(* choose_node -- sort the children by votes, keep the first n_assign, drop runners-up
+   without votes -- returns an outcome the acceptor check_choice accepts, for EVERY order
+   that is a permutation of the children with non-increasing votes: whatever numpy's
+   argsort does with ties.  (check_choice is what the correspondence check evaluates on
+   every record the real code reports.) *)
+Theorem c02_choose_node_meets_spec : forall (vf : Z -> nat) kids order (n_assign : nat) w wv rs,
+  NoDup kids -> Permutation order kids -> StronglySorted (fun a b => (b <= a)%nat) (map vf order) ->
+  (1 <= n_assign)%nat ->
+  choose_with order vf n_assign = Some (w, wv, rs) ->
+  check_choice kids vf n_assign w wv rs = true.
+Proof. exact choose_meets_spec. Qed.
+Print Assumptions c02_choose_node_meets_spec.
 
 (* whatever the tie order of the sort, a reported outcome accepted by check_choice names a
    child with the most votes, and the runners-up are the remaining vote getters in
@@ -45,6 +88,17 @@ Theorem c02_winner_plurality : forall kids vf n_assign w wv rs,
   (forall c, In c kids -> In c (w :: map fst rs) \/ (vf c <= last (map snd rs) wv)%nat).
 Proof. exact check_unpack. Qed.
 Print Assumptions c02_winner_plurality.
+
+(* non-vacuity of c02_choose_node_meets_spec: four children, votes 5/3/3/0 with a tie,
+   both tie orders, three assignments requested *)
+Example c02_choose_example :
+  let vf := fun c => if c =? 1 then 5%nat else if c =? 2 then 3%nat else if c =? 3 then 3%nat else 0%nat in
+  choose_with [1; 2; 3; 4] vf 3 = Some (1, 5%nat, [(2, 3%nat); (3, 3%nat)]) /\
+  choose_with [1; 3; 2; 4] vf 3 = Some (1, 5%nat, [(3, 3%nat); (2, 3%nat)]) /\
+  check_choice [4; 3; 2; 1] vf 3 1 5 [(2, 3%nat); (3, 3%nat)] = true /\
+  check_choice [4; 3; 2; 1] vf 3 1 5 [(3, 3%nat); (2, 3%nat)] = true /\
+  check_choice [4; 3; 2; 1] vf 3 2 3 [(1, 5%nat); (3, 3%nat)] = false.
+Proof. vm_compute. repeat split; reflexivity. Qed.
 
 Example c02_example :
   nearest [8; 0; 16; 24] [[0; 8; 0; 0]; [16; 0; 32; 50]; [8; 0; 16; 24]] [0%nat; 2%nat; 3%nat] = Some 2%nat /\
